@@ -571,7 +571,7 @@ class InProtocolBase(ProtocolMixin):
                             int(match.group('month')), int(match.group('day')))
             else:
                 # the message from ValueError is quite nice already
-                raise ValidationError(e.message, "%s")
+                raise ValidationError(str(e), "%s")
 
     def duration_from_unicode(self, cls, string):
         match = _duration_re.match(string)
